@@ -26,6 +26,9 @@ func vh_shutdown() {
 	c.net.Sent = nil
 	e.handleClose() // what the protocol goroutine does when sndCloseWaker fires
 	vassert(s.closed, "the sender is marked closed")
+	if s.writeNext != nil {
+		vreach("closed-with-unsent-data") // data still waits for the window: the FIN stays queued behind it
+	}
 	vassert(s.sndNxtList == end0+1, "the FIN consumes exactly one sequence number after the last written byte")
 	vassert(vhInvS(s), "the FIN is the last element of the write list (InvS)")
 	for _, p := range c.net.Sent {
@@ -107,4 +110,33 @@ func vh_mainloop() {
 	vassert(e.state == stateClosed, "a terminated connection is closed")
 	vassert(e.rcv.closed && s.closed && s.sndUna == s.sndNxtList, "the protocol goroutine never stops while a direction is open or written data / the FIN is still unacknowledged")
 	vreach("terminated")
+}
+
+// The handshake's retransmission loop: every time the SYN timer fires, either the timer is
+// armed again and the SYN re-sent, or the connect fails with ErrTimeout - the goroutine never
+// goes to sleep with no timer armed and nothing pending (a connect that neither completes
+// nor fails).
+func vh_handshake_resend() {
+	vclockFreeze()
+	c := vhEP(1<<16, 1<<16)
+	e := c.e
+	e.state = stateConnecting
+	h, err := newHandshake(e, seqnum.Size(e.rcvBufSize))
+	vassert(err == nil, "newHandshake")
+	k := vnChoice("timeouts", 7) // the SYN (and each retransmission) is lost k times
+	for i := 0; i < k; i++ {
+		vfetchPushTimer(wakerForResend)
+	}
+	vexpectTimerAtBlock()
+	c.net.Sent = nil
+	herr := h.execute()
+	// execute only returns here when it gave up (otherwise the path ends waiting, with the
+	// timer armed - checked by the executor at that point)
+	vassert(herr == tcpip.ErrTimeout && k == 6, "after the timeouts 1,2,4,8,16,32 s the connect fails with ErrTimeout - not earlier")
+	vassert(len(c.net.Sent) == 6, "the SYN was sent once and re-sent after each of the first five timeouts")
+	for _, p := range c.net.Sent {
+		d := vhDecode(p)
+		vassert(d.flags == flagSyn && seqnum.Value(d.seq) == h.iss, "every retransmission is the same SYN")
+	}
+	vreach("gave-up")
 }
